@@ -349,7 +349,7 @@ def run(ctx: common.Ctx):
     hap_enumerators(ctx)
     from . import rule_ref
     rule_ref.check_rule_tables(ctx)
-    base = dict(vary=True, per_tx=(1, 7), max_size=6, window=24, witness=False, as_frac=0.3, junction_mnv=0.1)
+    base = dict(vary=True, per_tx=(1, 7), max_size=6, window=24, witness=False, as_frac=0.3, junction_mnv=0.1, internal_met=0.2)
     res = cv_checks.explore(ctx, ctx.n(220, 4000), dict(base, exception=None, variations=['collapse'], stages=True,
                                                         tvgbuild=True))
     stats = dict(ctx.coverage['worker_stats'])
